@@ -59,6 +59,10 @@ CLAIMS = {
          "Same obligations as C01 on the HTTP near-clone (an asymmetric edit of one copy fails one property and not the other), plus: scrape iterates take(min(len, max_scrape_torrents)) of the request order into a BTreeMap with zeros for unknown torrents; the torrent retain closure drops forbidden torrents first and keeps a torrent iff clean_and_get_num_peers(now) > 0 for its representation.",
          "Not decided: history equivalence as for C01.",
          "DESIGN.md section 2, C07"),
+ "C02": ("normalised expression-tree comparison of the selection arithmetic with a hand-proved skeleton; clamp decision tables; path analysis of the exclusion filters",
+         "Decided: the numwant clamp tables (udp: <= 0 -> max, else min(max, n); http: None|Some(0) -> max, Some(n) -> min(n, max); ws: min(offers, max_offers)) with the configured limit as origin; the guard and both get_range arguments of the three extract_response_peers implementations equal the reference skeleton (middle = len/2, h, off1 in [0, max(1, middle-h)), off2 in [middle, max(middle+1, len-h)), ends off+h), udp and http copies identical; small maps take(max); WebTorrent: every extend goes through a != sender filter and every return leaves the truncation loop on its false edge; udp/http remove the announcer before extracting.",
+         "The bounds themselves follow from the hand argument recorded in rules/C02.py. Not decided: distinctness/membership of returned peers (indexmap), behaviour over RNG outcomes. Stated risk: an equivalent reformulation of the arithmetic would be reported.",
+         "DESIGN.md section 2, C02"),
 }
 
 PENDING_REASON = "check under construction in this build phase (static rules designed in DESIGN.md section 2); not claimed until its rule set is validated both ways"
